@@ -196,4 +196,21 @@ PROPS = {
         "thorough": {"runs": [{"test": "^TestC02$", "shards": 16, "checks": 3000, "timeout": 3400},
                               {"fuzz": "^FuzzC02$", "test": "FuzzC02", "fuzztime": "180s", "timeout": 600, "group": 1, "weight": 16}]},
     },
+    "C18": {
+        "title": "Threaded news keeps every article and threads new ones correctly",
+        "level": "exploration",
+        "rule": "rapid state machine through the protocol: new bundle, new category (fresh names from a pool of awkward names incl. 255 bytes, "
+                "YAML-significant text, Latin-1 bytes; depth <= 3), change poster name (0-255 bytes), post (parent 0 or an existing id, title "
+                "0-255 bytes with boundary bias, body in {0,1,50,500,5000,60000} bytes), delete article, delete category/bundle, reload of the "
+                "news file + fresh store; after every step every category's article list (strictly parsed by hlref), every article via "
+                "get-article, and every path's category listing are compared with a model tree; post oracle: exactly one new id not in use, "
+                "requested parent, prev == previously newest id, that article's next == new id, title/poster/body as posted; "
+                "non-trivial = >= 1 delete and >= 2 posts in the history (every step lists everything); distinct = hash(history)",
+        "assumptions": ["creating over an existing name, replies to a missing parent and posts into a missing category are excluded (outside the statement / C03)",
+                        "text starting with a newline is excluded from the state machine (known finding yaml-leading-newline, decided by TestC18LeadingNewline)"],
+        "quick": {"runs": [{"test": "^TestC18$", "shards": 16, "checks": 60, "timeout": 600},
+                           {"test": "^TestC18LeadingNewline$", "shards": 1, "checks": 20, "timeout": 300}]},
+        "thorough": {"runs": [{"test": "^TestC18$", "shards": 16, "checks": 2500, "timeout": 3400},
+                              {"test": "^TestC18LeadingNewline$", "shards": 1, "checks": 200, "timeout": 600}]},
+    },
 }
